@@ -27,13 +27,13 @@ def random_choice_runs(rep, n):
             prev = []
             for step in range(rnd.randint(1, 4)):
                 if rnd.random() < 0.3:
-                    w.new_session()
+                    w.new_session(1)
                 k = rnd.randint(1, 4)
                 harvest.VER[0] = rnd.choice([1, 2])
-                over = {"a": [rnd.choice([1, 2, 3])]} if rnd.random() < 0.4 else None
+                over = {"a": [rnd.choice([7, 8])]} if rnd.random() < 0.4 else None      # an override outside the defaults
                 import contextlib, io
                 with contextlib.redirect_stdout(io.StringIO()), contextlib.redirect_stderr(io.StringIO()):
-                    w.s.sample_combos(k, over, verbosity=0)
+                    w.samplers[1].sample_combos(k, over, verbosity=0)
                 o = w.observe()
                 case = dict(kind="random_choice", seed=rep.seed + i, step=step)
                 rep.add_case(["rc", rep.seed, i, step], sample=None)
@@ -43,6 +43,7 @@ def random_choice_runs(rep, n):
                     break
                 for r in o["disk"][len(prev):]:
                     if r[2] != harvest.VER[0] or r[0] not in ((over or {}).get("a") or [1, 2, 3]) or r[1] not in [1, 2, 3]:
+                        # (an override of one run must not leak into the next: then a would be 7 or 8 here)
                         rep.add_violation(case, "np.random.choice sampling: row %r not from the allowed choices / wrong outputs" % (r,),
                                           key=dict(tag="rc_row"))
                         break
